@@ -11,6 +11,7 @@
 (*             supports(kind m) answered True (assumption check only)      *)
 (*   prefs     sequence of preference lists (sequences of engine ids) the  *)
 (*             driver installed with factory.preference_list = ...         *)
+(*   qm        ids of the features of the QUALITY_METRICS group             *)
 (*   rk        rows [e, ck, in, out |-> [k, f, x]]: what the real           *)
 (*             resulting_problem_kind of engine e returned for kind `in`   *)
 (*   reqs      sequence of requests                                        *)
@@ -51,8 +52,23 @@ JudgeSpec == JInit /\ [][JNext]_jvars
 ReqOf(q) == Req(q.mode, Range(q.f), q.ck, q.pk, q.og, q.ag)
 NoSuitable == "UPNoSuitableEngineAvailableException"
 
+\* Two defects of the pinned tree are recognised by name, so that only these (and not any other
+\* unexpected exception) can be listed as known findings:
+\*  - _get_engine_class builds its error report while scanning: for an engine that implements the
+\*    mode but does not qualify it asserts issubclass(EngineClass, OneshotPlannerMixin) whenever an
+\*    optimality guarantee is requested -- false for replanners, plan repairers, portfolio selectors.
+\*    The assertion is reached iff such an engine precedes the first qualifying one.
+\*  - _get_engine refuses Replanner(problem, SOLVED_OPTIMALLY) with UPUsageError when the problem
+\*    HAS a quality metric (inverted test), after an engine was selected.
+ErrorReportAsserts(reg, prefs, r) ==
+   /\ r.og # None
+   /\ \E n \in DOMAIN prefs :
+         /\ \A j \in 1..n : ~Qualifies(reg[prefs[j]], r)
+         /\ r.mode \in reg[prefs[n]].modes
+         /\ "oneshot_planner" \notin reg[prefs[n]].modes
+
 \* <<clause, stage, exception class>> of the mode entry point's answer (clause "" = accepted)
-ObsClause(reg, prefs, rk, q) ==
+ObsClause(reg, prefs, rk, qm, q) ==
    LET o == q.obs IN
    IF o.k = "skip" THEN <<"", 0, "">>
    ELSE IF o.k = "timeout" THEN <<"no-answer-within-time-limit", 0, "">>
@@ -73,6 +89,11 @@ ObsClause(reg, prefs, rk, q) ==
           want == Select(reg, prefs, r)
       IN IF o.k = "engine" THEN <<EngineClause(reg, prefs, r, want, Range(o.n)), 0, "">>
          ELSE IF o.k = "exc" /\ o.x = NoSuitable THEN <<NoSuitableClause(want), 0, "">>
+         ELSE IF o.k = "exc" /\ o.x = "AssertionError" /\ ErrorReportAsserts(reg, prefs, r)
+              THEN <<"error-report-asserts-oneshot-planner", 0, o.x>>
+         ELSE IF o.k = "exc" /\ o.x = "UPUsageError" /\ want # NoEngine /\ q.mode = "replanner"
+                 /\ q.og = "SOLVED_OPTIMALLY" /\ Range(q.f) \cap qm # {}
+              THEN <<"replanner-optimal-refused-although-problem-has-metric", 0, o.x>>
          ELSE IF o.k = "exc" THEN <<"unexpected-exception", 0, o.x>>
          ELSE <<"unexpected-answer", 0, o.k>>
 
@@ -111,6 +132,6 @@ Verdict ==
    IF i = 0 THEN AssumeOK(B, Regs[b]) /\ (B.stats => Stats(B, Regs[b], Prefs[b], RKs[b]))
    ELSE LET q == B.reqs[i]
             pl == Prefs[b][q.p]
-        IN /\ Report(B.id, i, ObsClause(Regs[b], pl, RKs[b], q))
+        IN /\ Report(B.id, i, ObsClause(Regs[b], pl, RKs[b], Range(B.qm), q))
            /\ Report(B.id, i, AllObsClause(Regs[b], pl, q))
 =============================================================================
